@@ -96,6 +96,9 @@ def expected_from_pre(pre_groups):
              "-s": "symbol-delimiter", "--symbol": "symbol-delimiter", "-a": "attribute", "--attrs": "attribute"}
     for g in pre_groups:
         tok = g[0]
+        if len(g) == 1 and tok in ("-cv", "-vc"):     # bundled short flags: --char and --verbose
+            cfg["atom"] = "char"
+            continue
         if "=" in tok and len(g) == 1:
             key, val = tok.split("=", 1)
         elif len(g) == 2:
@@ -129,7 +132,8 @@ def expected_from_pre(pre_groups):
     if "chunk" in cfg:
         cfg["min"] = cfg["max"] = cfg.pop("chunk")
         cfg["rep"] = "never"
-    used_atoms = {atoms[g[0]] for g in pre_groups if len(g) == 1 and g[0] in atoms}
+    used_atoms = {atoms[g[0]] for g in pre_groups if len(g) == 1 and g[0] in atoms} | \
+        {"char" for g in pre_groups if len(g) == 1 and g[0] in ("-cv", "-vc")}
     if len(used_atoms) > 1:
         return None          # mutually exclusive group: refused by argparse
     family_opts = any(g[0].split("=")[0] in ("--min", "--max", "--repeat", "--chunk-size", "--repeat-first-round", "--max-run-time", "--max-run")
@@ -150,6 +154,25 @@ def early_unknown_two_token(pre_groups):
         if swallows:
             return True
     return False
+
+
+def early_visible(pre_groups):
+    """what the recorded finding explains: the atom flag and strategy the early parser still sees, i.e. those given before the
+    first option form it chokes on (a cluster -vc only loses its own flag)"""
+    atoms = {"-c": "char", "--char": "char", "-j": "jsstr char", "--js": "jsstr char", "-l": "line", "--lines": "line",
+             "-s": "symbol-delimiter", "--symbol": "symbol-delimiter", "-a": "attribute", "--attrs": "attribute"}
+    early_known = set(atoms) | {"--strategy", "--strat"}
+    atom, strategy = "line", "minimize"
+    for g in pre_groups:
+        if (len(g) == 2 and g[0] not in early_known) or g == ["-cv"]:
+            break
+        if len(g) == 1 and g[0] in atoms:
+            atom = atoms[g[0]]
+        elif g[0].startswith(("--strategy=", "--strat=")) and len(g) == 1:
+            strategy = g[0].split("=", 1)[1]
+        elif g[0] in ("--strategy", "--strat") and len(g) == 2:
+            strategy = g[1]
+    return atom, strategy
 
 
 def one(ctx, pre_groups, name, tail, do_model=True):
@@ -201,7 +224,8 @@ def one(ctx, pre_groups, name, tail, do_model=True):
     if (c["tempdir"] or None) != exp["tempdir"]:
         mism.append(("tempdir", c["tempdir"], exp["tempdir"]))
     if mism:
-        key = "early-parser-swallow" if early_unknown_two_token(pre_groups) else "config-mismatch"
+        key = "early-parser-swallow" if early_unknown_two_token(pre_groups) and \
+            (c["atom"], c["strategy"]) == early_visible(pre_groups) else "config-mismatch"
         ctx.fail(key, f"{argv}: {mism} (got, documented)", case)
     if any(t in ("-c", "-j", "--char", "--strategy=check-only", "--min", "--testcase", "--max=2", "-h", "--help") for t in tail):
         ctx.nontriv(tuple(argv))
@@ -266,6 +290,11 @@ def resolution(ctx):
     (base / "elsewhere" / "c17res_b.py").write_text(marker("elsewhere-b"))
     (base / "cwd" / "crashes.py").write_text(marker("cwd-crashes"))
     (base / "elsewhere" / "c17res_b.sh").write_text("#!/bin/sh\n")
+    # a module of that name in the current directory may just as well be a package
+    (base / "cwd" / "c17res_pkg").mkdir()
+    (base / "cwd" / "c17res_pkg" / "__init__.py").write_text(marker("cwd-package"))
+    (base / "cwd" / "timed_run").mkdir()
+    (base / "cwd" / "timed_run" / "__init__.py").write_text(marker("cwd-package-timed-run"))
     cwd = os.getcwd()
     os.chdir(base / "cwd")
     cases = [
@@ -273,12 +302,13 @@ def resolution(ctx):
         ("../elsewhere/c17res_b.py", "elsewhere-b"), ("crashes", "cwd-crashes"), ("hangs", "builtin"), ("outputs.py", "builtin"),
         ("c17res_nope", "error"), (str(base / "elsewhere" / "c17res_nope.py"), "error"), (str(base / "nodir" / "hangs.py"), "error"),
         # only a trailing `.py` is dropped from a name: other extensions are part of it, and no such module exists
+        ("c17res_pkg", "cwd-package"), ("timed_run", "cwd-package-timed-run"),
         ("hangs.txt", "error"), ("c17res_a.cfg", "error"), (str(base / "elsewhere" / "c17res_b.sh"), "error"), ("outputs.pyc", "error"),
     ]
     try:
         for extra_path in (None, str(base / "elsewhere"), str(base / "cwd")):
             for arg, want in cases:
-                for m in [k for k in sys.modules if k.startswith("c17res_") or k == "crashes"]:
+                for m in [k for k in sys.modules if k.startswith("c17res_") or k in ("crashes", "timed_run")]:
                     del sys.modules[m]
                 saved = list(sys.path)
                 if extra_path:
@@ -329,11 +359,70 @@ def resolution(ctx):
                 ctx.bump("resolution-path-changing-test")
     finally:
         os.chdir(cwd)
-        for m in [k for k in sys.modules if k.startswith("c17res_") or k == "crashes"]:
+        for m in [k for k in sys.modules if k.startswith("c17res_") or k in ("crashes", "timed_run")]:
             del sys.modules[m]
 
 
+def literal_names(ctx):
+    """'the file reduced is the last argument unless --testcase names another': the name is taken as it stands — a name that a
+    shell would have expanded (~, $VAR, a glob) is a file of exactly that name (whole runs, files compared afterwards)"""
+    import contextlib
+    import io
+    import shutil
+    from lithium.reducer import Lithium
+
+    base = loaders.scratch() / "c17-lit"
+    if base.exists():
+        shutil.rmtree(base)
+    (base / "cwd").mkdir(parents=True)
+    (base / "home").mkdir()
+    (base / "cwd" / "c17lit_t.py").write_text("import os\ndef interesting(a, p):\n    return b'keep' in open(os.environ['C17_TARGET'], 'rb').read()\n")
+    names = ["~/t.txt", "$HOME/t.txt", "${C17VAR}.txt", "*.txt", "%HOME%.txt", "~c17user/t.txt"]
+    cwd = os.getcwd()
+    old_env = {k: os.environ.get(k) for k in ("HOME", "C17VAR", "C17_TARGET")}
+    os.environ["HOME"], os.environ["C17VAR"] = str(base / "home"), "t"
+    os.chdir(base / "cwd")
+    try:
+        for name in names:
+            for via in ("last", "--testcase"):
+                decoys = [base / "home" / "t.txt", base / "cwd" / "t.txt", base / "cwd" / "other.txt"]
+                for p in decoys:
+                    p.write_bytes(b"decoy\nkeep\n")
+                target = base / "cwd" / name
+                target.parent.mkdir(parents=True, exist_ok=True)
+                target.write_bytes(b"drop\nkeep\n")
+                sys.modules.pop("c17lit_t", None)
+                os.environ["C17_TARGET"] = str(target)
+                argv = ["c17lit_t.py", name] if via == "last" else ["--testcase=" + name, "c17lit_t.py", "other.txt"]
+                case = dict(argv=argv, literal_name=name)
+                ctx.evaluations += 1
+                ctx.bump("literal-names")
+                try:
+                    with contextlib.redirect_stdout(io.StringIO()), contextlib.redirect_stderr(io.StringIO()):
+                        Lithium().main(argv)
+                except (Exception, SystemExit) as exc:  # pylint: disable=broad-except
+                    ctx.fail("wrong-file", f"main({argv}) with a file of exactly that name present raised {type(exc).__name__}: {exc}", case)
+                    continue
+                changed = [str(p.relative_to(base)) for p in decoys if p.read_bytes() != b"decoy\nkeep\n"]
+                if target.read_bytes() != b"keep\n" or changed:
+                    ctx.fail("wrong-file", f"main({argv}): the file named {name!r} holds {target.read_bytes()!r} (expected b'keep\\n'); "
+                             f"other files changed: {changed}", case)
+                ctx.nontriv("literal", name, via)
+                for t in [x for x in (base / "cwd").glob("tmp*")]:
+                    shutil.rmtree(t, ignore_errors=True)
+    finally:
+        os.chdir(cwd)
+        for k, v in old_env.items():
+            if v is None:
+                os.environ.pop(k, None)
+            else:
+                os.environ[k] = v
+        sys.modules.pop("c17lit_t", None)
+
+
 def search(ctx):
+    resolution(ctx)
+    literal_names(ctx)
     grid(ctx, 3000, do_model=False)
 
 
@@ -345,6 +434,7 @@ def run(ctx) -> int:
     known_finding_cases(ctx)
     grid(ctx, 6000 if ctx.thorough else 900)
     resolution(ctx)
+    literal_names(ctx)
     return common.decide(ctx, proof, RULE, search=search,
                          extra=dict(generated_tables=dict(early_options=len(early["opts"]), main_tables=len(distinct))),
                          assumptions=["the port of argparse 3.12 `_parse_known_args` is a model of a library, validated only by this correspondence",
